@@ -444,12 +444,162 @@ fn trial_b(ctx: &Ctx, cs: u64) {
     }
 }
 
+fn open_fds() -> usize {
+    std::fs::read_dir("/proc/self/fd").map(|d| d.count()).unwrap_or(0)
+}
+
+/// (c) injected fault: the process runs out of file descriptors, `accept` fails and the accept
+/// thread ends (the application is told through `recv`); the descriptors come back and the server
+/// is dropped. Dropping must still clean up: the UNIX socket path is removed, no thread stays.
+fn trial_c(ctx: &Ctx, cs: u64) {
+    let rep = &ctx.rep;
+    let mut rng = Rng::new(cs);
+    let unix = rng.chance(2, 3);
+    let spare = *rng.pick(&[2usize, 2, 3, 4]);
+    let t0 = library_thread_count();
+    let panics0 = crate::env::panics_count();
+    // a small descriptor budget so that exhaustion takes a handful of opens
+    let mut old = libc::rlimit { rlim_cur: 0, rlim_max: 0 };
+    unsafe {
+        libc::getrlimit(libc::RLIMIT_NOFILE, &mut old);
+    }
+    let (server, addr, path) = if unix {
+        let dir = std::env::current_exe().unwrap().parent().unwrap().join("socks");
+        let _ = std::fs::create_dir_all(&dir);
+        let p = dir.join(format!("c20c-{}-{:x}", std::process::id(), cs & 0xffff_ffff));
+        let _ = std::fs::remove_file(&p);
+        match Server::http_unix(&p) {
+            Ok(s) => (s, Addr::Unix(p.clone()), Some(p)),
+            Err(e) => {
+                rep.inconclusive(&format!("bind unix: {}", e));
+                return;
+            }
+        }
+    } else {
+        match Server::http(format!("{}:0", own_ip(ctx.shard, cs))) {
+            Ok(s) => {
+                let a = Addr::Tcp(s.server_addr().to_ip().unwrap());
+                (s, a, None)
+            }
+            Err(e) => {
+                rep.inconclusive(&format!("bind: {}", e));
+                return;
+            }
+        }
+    };
+    std::thread::sleep(Duration::from_millis(50));
+    let budget = libc::rlimit { rlim_cur: (open_fds() + 40) as libc::rlim_t, rlim_max: old.rlim_max };
+    unsafe {
+        libc::setrlimit(libc::RLIMIT_NOFILE, &budget);
+    }
+    let mut hogs = Vec::new();
+    while let Ok(f) = std::fs::File::open("/dev/null") {
+        hogs.push(f);
+        if hogs.len() > 10_000 {
+            break;
+        }
+    }
+    for _ in 0..spare {
+        hogs.pop();
+    }
+    // one client gets in with the spare descriptors, the accept after it fails with EMFILE
+    let mut clients = Vec::new();
+    let mut told = None;
+    let t_wait = Instant::now();
+    while t_wait.elapsed() < Duration::from_millis(2000) && told.is_none() {
+        // further clients use up what is left (each costs one descriptor here and one or two
+        // on the accepting side)
+        if clients.len() < 4 {
+            if let Ok(c) = crate::net::CStream::connect(&addr) {
+                clients.push(c);
+            }
+        }
+        for _ in 0..4 {
+            match lib(|| server.recv_timeout(Duration::from_millis(50))) {
+                Err(e) => {
+                    told = Some(e.to_string());
+                    break;
+                }
+                Ok(Some(rq)) => {
+                    let _ = lib(|| rq.respond(Response::from_string("ok")));
+                }
+                Ok(None) => {}
+            }
+        }
+    }
+    drop(clients);
+    hogs.clear();
+    unsafe {
+        libc::setrlimit(libc::RLIMIT_NOFILE, &old);
+    }
+    if told.is_none() {
+        // no error was reported; the accept thread may have ended all the same (it unwraps the
+        // duplication of the accepted socket, which fails when exactly that descriptor is the one
+        // too many): then the listener is closed and a connection attempt is refused
+        std::thread::sleep(Duration::from_millis(100));
+        match crate::net::CStream::connect(&addr) {
+            Err(e) if e.kind() == std::io::ErrorKind::ConnectionRefused => {
+                told = Some("(no error reported to the application; the listener is closed)".into());
+                rep.inc("c:accept_thread_ended_without_report");
+            }
+            _ => {
+                // the fault did not hit the accept path: nothing learnt
+                rep.inc("c:accept_failure_not_provoked");
+                lib(|| drop(server));
+                rep.eval(None);
+                return;
+            }
+        }
+    }
+    std::thread::sleep(Duration::from_millis(100));
+    lib(|| drop(server));
+    std::thread::sleep(Duration::from_millis(6500));
+    let t1 = library_thread_count();
+    rep.inc("c:trials_with_accept_failure");
+    rep.eval(Some(&format!("c|unix{}|spare{}", unix, spare)));
+    let detail = J::obj()
+        .set("transport", J::s(if unix { "unix" } else { "tcp" }))
+        .set("spare_descriptors", J::u(spare))
+        .set("error_reported_to_the_application", J::s(told.clone().unwrap_or_default()))
+        .set("library_threads_before", J::u(t0))
+        .set("library_threads_6s_after_drop", J::u(t1));
+    let mut finding: Option<(String, String)> = None;
+    if let Some(p) = &path {
+        if p.exists() {
+            finding = Some((
+                "C20/unix-path-not-removed".into(),
+                format!("the socket file {} is still there after the server was dropped (its accept thread had ended after an accept error: {})", p.display(), told.clone().unwrap_or_default()),
+            ));
+            let _ = std::fs::remove_file(p);
+        }
+    }
+    if finding.is_none() && t1 > t0 {
+        finding = Some((
+            "C20/threads-left-after-drop".into(),
+            format!("{} library threads before the server existed, {} six seconds after it was dropped (accept had failed with: {})", t0, t1, told.clone().unwrap_or_default()),
+        ));
+    }
+    if finding.is_none() && crate::env::panics_count() > panics0 {
+        // a panic of a library thread in this situation is reported as evidence only: running
+        // out of descriptors is not an input the statement of C20 talks about
+        rep.inc("c:library_panics_during_descriptor_exhaustion");
+        let _ = crate::env::panics_take();
+    }
+    if let Some((sig, what)) = finding {
+        rep.violation(Violation { signature: sig, what, detail, case_seed: cs, mode: "c".into() });
+    } else {
+        rep.sample(|| detail.set("workload", J::s("c")));
+    }
+}
+
 pub fn run(ctx: &Ctx) {
     crate::env::install_fp_hook();
     if let Some((cs, mode, repeat)) = &ctx.replay {
         for _ in 0..(*repeat).max(1) {
             if mode == "b" {
                 trial_b(ctx, *cs);
+            } else if mode == "c" {
+                trial_c(ctx, *cs);
             } else {
                 crate::env::fp_configure(*cs, &[v::FP_ACCEPTED], 300, 2000);
                 trial_a(ctx, *cs);
@@ -458,7 +608,17 @@ pub fn run(ctx: &Ctx) {
         return;
     }
     let mut rng = Rng::new(ctx.seed ^ ((ctx.shard as u64) << 32) ^ 0xC20);
-    if ctx.shard % 2 == 0 {
+    if ctx.shard % 8 == 6 {
+        // (c): descriptor exhaustion, alone in its process
+        let mut idx = 0u64;
+        loop {
+            trial_c(ctx, ctx.case_seed(idx));
+            idx += 1;
+            if ctx.elapsed_ms() + 8_000 > ctx.budget_ms || ctx.rep.n_violations() > 0 {
+                break;
+            }
+        }
+    } else if ctx.shard % 2 == 0 {
         // (b): process-wide thread counts, one trial at a time, nothing else in this process
         let mut idx = 0u64;
         loop {
